@@ -143,6 +143,7 @@ Section WithOracle.
       destruct (memN (m_idx m) (x_self x)); [discriminate|].
       destruct (valid_membership addr_of (x_ops x) (m_idx m) (m_key m)); [reflexivity|discriminate].
     - destruct (memN (m_idx m) (x_done x)); [discriminate|].
+      destruct (memN (m_idx m) (x_attempt x)); [|discriminate]. cbn [negb].
       destruct (valid_membership addr_of (x_ops x) (m_idx m) (m_key m)); [reflexivity|discriminate].
   Qed.
 
@@ -199,20 +200,42 @@ Section WithOracle.
       destruct (x_session x =? block); reflexivity.
     - apply andb_false_iff in Hs.
       destruct (memN (m_idx m) (x_done x)); [reflexivity|].
+      destruct (memN (m_idx m) (x_attempt x)); [|reflexivity]. cbn [negb].
       destruct (valid_membership addr_of (x_ops x) (m_idx m) (m_key m)); [|reflexivity].
       cbn [negb]. destruct Hs as [Hs|Hs]; rewrite Hs; cbn [negb]; [reflexivity|].
       destruct (message =? x_protocol x); reflexivity.
   Qed.
 
   Lemma ignored_excluded s x m :
-    documents_excluded s = true ->
-    is_operating (x_grp x) (m_idx m) = false ->
+    excluded_at s x (m_idx m) = true ->
     acted (admit addr_of s x m) = false.
   Proof.
-    unfold documents_excluded, admit. intros Hdoc Hop.
-    destruct (kind_of s); try discriminate; destruct (m_pay m); cbn [acted]; try reflexivity;
-      unfold should_accept; rewrite Hop, andb_false_r; reflexivity.
+    unfold excluded_at, admit. intros Hex.
+    destruct (kind_of s); try discriminate; destruct (m_pay m); cbn [acted]; try reflexivity.
+    - apply negb_true_iff in Hex. unfold should_accept. rewrite Hex, andb_false_r. reflexivity.
+    - apply negb_true_iff in Hex. unfold should_accept. rewrite Hex, andb_false_r. reflexivity.
+    - rewrite Hex. destruct (memN (m_idx m) (x_done x)); reflexivity.
   Qed.
+
+  Lemma ignored_excluded_prop s x m :
+    match kind_of s with
+    | KPlain | KKeyed => is_operating (x_grp x) (m_idx m) = false
+    | KDone => ~ In (m_idx m) (x_attempt x)
+    | KAnnounce | KFollower => False
+    end ->
+    acted (admit addr_of s x m) = false.
+  Proof.
+    intros H. apply ignored_excluded. unfold excluded_at.
+    destruct (kind_of s); try contradiction.
+    - now rewrite H.
+    - now rewrite H.
+    - apply negb_true_iff. destruct (memN (m_idx m) (x_attempt x)) eqn:Hm; [|reflexivity].
+      apply memN_In in Hm. contradiction.
+  Qed.
+
+  Lemma documents_excluded_exact s x idx :
+    documents_excluded s = false -> excluded_at s x idx = false.
+  Proof. unfold documents_excluded, excluded_at. destruct (kind_of s); try discriminate; reflexivity. Qed.
 
   (* exclusion = marked inactive or disqualified, or not a member index at all *)
   Lemma excluded_not_operating g idx :
@@ -229,7 +252,7 @@ Section WithOracle.
   Proof.
     exists {| x_self := [1]; x_ops := [7; 8]; x_grp := {| g_size := 2; g_ia := []; g_dq := [] |};
               x_session := 3; x_protocol := 9; x_leader := 7; x_allowed := []; x_timeout := 100;
-              x_done := [] |}.
+              x_done := []; x_attempt := [1; 2] |}.
     exists {| m_idx := 1; m_key := 7; m_pay := PDone 9 3 50 true |}.
     split; [now left | vm_compute; reflexivity].
   Qed.
@@ -274,20 +297,20 @@ Section WithOracle.
     holds_index (x_ops x) (m_idx m) a /\
     (documents_self s = true -> ~ In (m_idx m) (x_self x)) /\
     same_session x m = true /\
-    (documents_excluded s = true -> is_operating (x_grp x) (m_idx m) = true).
+    excluded_at s x (m_idx m) = false.
   Proof.
     unfold spec_ok. intros Hs Ha.
     assert (H : holds_index_b (x_ops x) (m_idx m) a
                 && (negb (documents_self s) || negb (memN (m_idx m) (x_self x)))
                 && same_session x m
-                && (negb (documents_excluded s) || is_operating (x_grp x) (m_idx m)) = true).
+                && negb (excluded_at s x (m_idx m)) = true).
     { destruct o; try exact Hs; discriminate. }
     rewrite !andb_true_iff in H. destruct H as [[[H1 H2] H3] H4].
     split; [|split; [|split]].
     - now apply holds_index_b_true.
     - intros Hd Hin. apply memN_In in Hin. rewrite Hd, Hin in H2. discriminate.
     - exact H3.
-    - intros Hd. rewrite Hd in H4. exact H4.
+    - now apply negb_true_iff.
   Qed.
 
   Lemma same_session_of_acted s x m :
@@ -318,9 +341,8 @@ Section WithOracle.
       rewrite ignored_self in Ha; [discriminate|assumption|].
       destruct (kind_of s) eqn:Hk; try exact Hm;
         (rewrite Hself in Hm by discriminate; destruct Hm as [Hm|[]]; now symmetry). }
-    assert (H4 : negb (documents_excluded s) || is_operating (x_grp x) (m_idx m) = true).
-    { destruct (documents_excluded s) eqn:Hd; [|reflexivity]. cbn [negb orb].
-      destruct (is_operating (x_grp x) (m_idx m)) eqn:Ho; [reflexivity|].
+    assert (H4 : negb (excluded_at s x (m_idx m)) = true).
+    { destruct (excluded_at s x (m_idx m)) eqn:Ho; [|reflexivity].
       rewrite ignored_excluded in Ha by assumption. discriminate. }
     unfold spec_ok. rewrite H1, H2, H3, H4.
     destruct (admit addr_of s x m); try reflexivity. now elim Hnm.
@@ -333,7 +355,7 @@ Example multi_seat_operator :
   let x := {| x_self := [1]; x_ops := [10; 20; 20; 30; 40];
               x_grp := {| g_size := 5; g_ia := []; g_dq := [4] |};
               x_session := 7; x_protocol := 0; x_leader := 0; x_allowed := []; x_timeout := 0;
-              x_done := [] |} in
+              x_done := []; x_attempt := [] |} in
   map (fun i => admit (fun k => k) GjkrEphemeralKey x {| m_idx := i; m_key := 20; m_pay := PPlain 7 |})
       [0; 1; 2; 3; 4; 5; 6; 255]
   = [Ignored; Ignored; Stored; Stored; Ignored; Ignored; Ignored; Ignored]
